@@ -185,6 +185,11 @@ def validate_executions(module, cfg, executions, shards=None, timeout=900, reset
             wall += r.wall
             os.unlink(path)
             if reached is None:
+                try:
+                    with open("/var/tmp/verif-last-broken-tlc.txt", "w") as f:
+                        f.write(r.out)
+                except OSError:
+                    pass
                 return validated, events, rejected, "trace validation broken: " + (r.broken or r.out[-1200:]), wall
             if reached >= total:
                 validated += len(todo)
